@@ -81,7 +81,7 @@ func gEnumAuthorityMsgs(w *World) []c16Type {
 // ---------------------------------------------------------------------------------------
 // grid
 
-var c16Classes = []string{"user", "module", "valoper", "upper", "hex", "empty"}
+var c16Classes = []string{"user", "module", "valoper", "upper", "hex", "empty", "long"}
 var c16Modules = []string{"distribution", "bonded_tokens_pool", "erc20", "evm", "eth", "fee_collector", "mint", "bsc", "transfer", "migrate"}
 
 type c16Cell struct {
@@ -178,6 +178,14 @@ func c16Authority(w *World, class string, who int, variant int) string {
 			return sdk.ValAddress(gov).String() // the governance address itself under the validator prefix
 		}
 		return user.Val().String()
+	case "long":
+		// a different account whose address merely contains the governance address: 32 bytes ending
+		// (or beginning) with it - passes stateless validation, must not pass the handler
+		pad := []byte{0x11, 0x22, 0x33, 0x44, 0x55, 0x66, 0x77, 0x88, 0x99, 0xaa, 0xbb, byte(who + 1)}
+		if variant%2 == 0 {
+			return sdk.AccAddress(append(pad, gov.Bytes()...)).String()
+		}
+		return sdk.AccAddress(append(append([]byte{}, gov.Bytes()...), pad...)).String()
 	case "upper":
 		return strings.ToUpper(user.Bech())
 	case "hex":
@@ -223,7 +231,9 @@ func (c *c16State) gen(r *Run, kind string) (Step, bool) {
 				}
 				txSigners++
 			}
-			a := A("path", cell.Path, "class", cell.Class, "item", c.item(cell, st.Uniq), "auth", c16Authority(r.W, cell.Class, who, st.Uniq))
+			// the variant is drawn, not derived from the cursor: the grid walks paths in lockstep with the
+			// counter, which would pin each (class, path) to one parity
+			a := A("path", cell.Path, "class", cell.Class, "item", c.item(cell, st.Uniq), "auth", c16Authority(r.W, cell.Class, who, rng.IntN(1<<16)))
 			signer := KeyName("user", who)
 			if cell.Path == 2 && (cell.Class == "user" || cell.Class == "upper") && st.Uniq%2 == 0 {
 				// authz with a real grant: the authority (another user) has granted the executor
